@@ -14,7 +14,7 @@ RULE = ("Flow A: MC_Pipe (filter -> vertices -> coding graph -> encode) with Eve
         "accepted-but-undecidable. Flow B: seeded realistic filters of orders 3..5, messages to 256 (1024) bits. "
         "Distinct non-trivial = distinct (graph, start, message, mode) with a non-empty message.")
 
-MINE = {"window-violates-constraints", "filter-rejects-window", "whole-sequence-check-fails", "not-a-walk"}
+MINE = {"window-violates-constraints", "filter-rejects-window", "whole-sequence-check-fails"}
 
 
 def ctor_clause(ctx):
